@@ -3,29 +3,45 @@
     Objects: [decl] (what the TOML says) --[load_in d order]--> [config]
     --[config_requests cf order']--> requests, numbered by a counter of modulus
     [counter_mod] (regenerated from the source) --[apply_all]--> [state].
-    [order]/[order'] are the two HashMap iteration orders; every theorem holds
-    for all of them.  [keys_ok] is the decidable condition the loader does NOT
-    check (distinct route keys / frontends / backends, valid health checks). *)
+    [order]/[order'] are the two HashMap iteration orders (of the file's cluster
+    table and of [Config.clusters]); every theorem holds for all of them.  Since
+    the fixes b1489f3/58bb4e6 in /repo the loader itself rejects duplicate
+    frontends and backends, so no side condition on the declaration remains. *)
 From Coq Require Import List ZArith NArith String Bool Lia Permutation.
-From SV Require Import Common.Tok C20.Gen C20.Model C20.Proofs C20.LoadProofs.
+From SV Require Import Common.Tok C20.Gen C20.Model C20.Proofs C20.LoadProofs C20.InvProofs.
 Import ListNotations.
 Open Scope Z_scope.
+
+(** ** 0. the loader invariant *)
+
+(** every key the state uses is unique in an accepted file: listener (protocol, address), cluster id,
+    HTTP(S) route, TCP/UDP frontend, backend (cluster, id, address); health checks are valid *)
+Theorem loader_enforces_distinct_keys : forall d order cf,
+  Permutation order (d_clusters d) -> load_in d order = Ok cf -> KeysOk cf (cf_clusters cf).
+Proof. exact load_in_KeysOk. Qed.
+
+(** every frontend of an accepted file sits on a listener of its own protocol
+    (declared, or created for it by the loader) *)
+Theorem frontends_have_listeners : forall d order cf,
+  load_in d order = Ok cf -> fronts_on_listeners cf.
+Proof. exact load_in_fronts_on_listeners. Qed.
 
 (** ** 1. the generated commands are accepted in full by a fresh instance and the
        resulting state is exactly the configuration, for any number of entries *)
 
-Theorem load_total_and_exact : forall cf order,
-  Permutation order (cf_clusters cf) -> keys_ok cf (cf_clusters cf) = true ->
-  apply_all (config_requests cf order) empty_state
-  = (final_state cf order, repeat DOk (List.length (config_requests cf order))).
+Theorem load_total_and_exact : forall d order cf order',
+  Permutation order (d_clusters d) -> load_in d order = Ok cf -> Permutation order' (cf_clusters cf) ->
+  apply_all (config_requests cf order') empty_state
+  = (final_state cf order', repeat DOk (List.length (config_requests cf order'))).
 Proof.
-  intros cf order P H. apply apply_fresh. eapply KeysOk_perm; [apply Permutation_sym; exact P|]. now apply keys_ok_KeysOk.
+  intros d order cf order' P H P'. apply apply_fresh.
+  eapply KeysOk_perm; [apply Permutation_sym; exact P'|]. eapply load_in_KeysOk; eauto.
 Qed.
 
 (** what [final_state] is, relative to the configuration: the same objects, each once *)
-Theorem loaded_state_exact : forall cf order,
-  Permutation order (cf_clusters cf) -> keys_ok cf (cf_clusters cf) = true ->
-  let s := final_state cf order in
+Theorem loaded_state_exact : forall d order cf order',
+  Permutation order (d_clusters d) -> load_in d order = Ok cf -> Permutation order' (cf_clusters cf) ->
+  let s := final_state cf order' in
   map lkey (s_listeners s) = map lkey (all_listeners cf)
   /\ Permutation (s_clusters s) (map cc_clu (cf_clusters cf))
   /\ Permutation (s_fronts s) (map fst (flat_map cc_hfronts (cf_clusters cf)))
@@ -36,7 +52,7 @@ Theorem loaded_state_exact : forall cf order,
   /\ (forall f cert, In (f, cert) (flat_map cc_hfronts (cf_clusters cf)) -> f_https f = true ->
         In (certkey (f_addr f, cert)) (map certkey (s_certs s))).
 Proof.
-  intros cf order P H. apply keys_ok_KeysOk in H.
+  intros d order0 cf order P0 H0 P. pose proof (load_in_KeysOk _ _ _ P0 H0) as H. clear P0 H0.
   assert (Ho : KeysOk cf order) by (eapply KeysOk_perm; [apply Permutation_sym; exact P|exact H]).
   destruct Ho as (Hl & Hc & Hf & Ht & Hb & Hv).
   cbn [final_state s_listeners s_clusters s_fronts s_tfronts s_backends s_certs].
@@ -71,12 +87,13 @@ Qed.
 
 (** ** 2. loading the same file again over the state it produced changes nothing *)
 
-Theorem reload_idempotent : forall cf order order2,
-  Permutation order (cf_clusters cf) -> Permutation order2 (cf_clusters cf) -> keys_ok cf (cf_clusters cf) = true ->
-  fst (apply_all (config_requests cf order2) (final_state cf order)) = final_state cf order.
+Theorem reload_idempotent : forall d order cf order1 order2,
+  Permutation order (d_clusters d) -> load_in d order = Ok cf ->
+  Permutation order1 (cf_clusters cf) -> Permutation order2 (cf_clusters cf) ->
+  fst (apply_all (config_requests cf order2) (final_state cf order1)) = final_state cf order1.
 Proof.
-  intros cf order order2 P P2 H. apply reload_absorbed.
-  - eapply KeysOk_perm; [apply Permutation_sym; exact P|]. now apply keys_ok_KeysOk.
+  intros d order cf order1 order2 P H P1 P2. apply reload_absorbed.
+  - eapply KeysOk_perm; [apply Permutation_sym; exact P1|]. eapply load_in_KeysOk; eauto.
   - eapply Permutation_trans; [exact P2|]. now apply Permutation_sym.
 Qed.
 
@@ -167,6 +184,12 @@ Example load_total_and_exact_nonvacuous :
     /\ List.length (s_backends s) = 3%nat /\ List.length (s_certs s) = 1%nat
     /\ fst (apply_all (config_requests cf (cf_clusters cf)) s) = s.
 Proof. vm_compute. do 2 eexists. repeat split. Qed.
+
+Example frontends_have_listeners_nonvacuous :
+  exists cf, load sample_decl = Ok cf
+    /\ List.length (flat_map cc_hfronts (cf_clusters cf)) = 2%nat /\ List.length (flat_map cc_tfronts (cf_clusters cf)) = 2%nat
+    /\ List.length (cf_https cf) = 1%nat /\ List.length (cf_tcp cf) = 1%nat.
+Proof. vm_compute. eexists. repeat split. Qed.
 
 Example violations_rejected_nonvacuous :
   (exists cf, load sample_decl = Ok cf)
